@@ -95,7 +95,7 @@ fn torus(nu: usize, nv: usize) -> (Vec<Point3>, Vec<[u32; 3]>) {
     (v, f)
 }
 
-pub const CLOSED: [&str; 14] = ["box1", "box2", "box3", "prism3", "prism6", "cyl6", "cyl16", "sphere1", "sphere2", "torus", "tetra", "lprism", "twoboxes", "hollow"];
+pub const CLOSED: [&str; 17] = ["tinyfirst", "tinymid", "tinylast", "box1", "box2", "box3", "prism3", "prism6", "cyl6", "cyl16", "sphere1", "sphere2", "torus", "tetra", "lprism", "twoboxes", "hollow"];
 pub const OPEN: [&str; 6] = ["tube8", "quad", "hf0", "hf1", "hf2", "hf3"];
 
 /// A polygon with a given triangulation (counter-clockwise triangles over its vertices), extruded to height h
@@ -123,6 +123,25 @@ pub fn build(name: &str) -> (Vec<Point3>, Vec<[u32; 3]>, bool, bool) {
         "lprism" => {
             // an L-shaped outline (with the vertex that keeps the triangulation free of T-junctions) extruded
             let (v, f) = extrude(&[(0.0, 0.0), (3.0, 0.0), (3.0, 1.0), (1.0, 1.0), (1.0, 3.0), (0.0, 3.0), (0.0, 1.0)], &[[0, 1, 2], [0, 2, 3], [0, 3, 6], [6, 3, 4], [6, 4, 5]], 2.0);
+            (v, f, true, false)
+        }
+        "tinyfirst" | "tinymid" | "tinylast" => {
+            // three separate boxes in one mesh, one of them only 0.01 across: a section through all three has a loop
+            // that a coarse curve tolerance merges away, listed before, between or after the two that stay
+            let parts: [(Mesh, Vector3); 3] = [
+                (Mesh::create_box(0.01, 0.01, 0.01, true), Vector3::new(-1.0, 0.5, 0.5)),
+                (Mesh::create_box(2.0, 3.0, 4.0, true), Vector3::new(0.0, 0.0, 0.0)),
+                (Mesh::create_box(1.0, 1.0, 1.0, true), Vector3::new(5.0, 1.0, 0.0)),
+            ];
+            let order: [usize; 3] = match name { "tinyfirst" => [0, 1, 2], "tinymid" => [1, 0, 2], _ => [1, 2, 0] };
+            let mut v: Vec<Point3> = Vec::new();
+            let mut f: Vec<[u32; 3]> = Vec::new();
+            for k in order {
+                let (v2, f2) = (parts[k].0.vertices().to_vec(), parts[k].0.faces().to_vec());
+                let o = v.len() as u32;
+                v.extend(v2.iter().map(|p| p + parts[k].1));
+                f.extend(f2.iter().map(|t| [t[0] + o, t[1] + o, t[2] + o]));
+            }
             (v, f, true, false)
         }
         "twoboxes" => {
@@ -613,6 +632,11 @@ pub fn cases(tier: Tier) -> Vec<Case> {
                 for frac in FRACS {
                     out.push(Case { mesh: name.to_string(), pose, normal, frac, force: false });
                 }
+                // planes through the tiny box of the three-box mesh (it sits 0.5 .. 0.51 above the lowest vertex
+                // along the coordinate axes)
+                if name.starts_with("tiny") {
+                    out.push(Case { mesh: name.to_string(), pose, normal, frac: 2.505, force: false });
+                }
             }
         }
     }
@@ -685,11 +709,32 @@ fn isolated(tier: Tier, label: &str, n: usize, case_of: &dyn Fn(usize) -> Val) -
     l
 }
 
+/// The chaining step of `section`, called directly with the segments of one OPEN path in every order: parry
+/// never hands an open chain to `section` (recorded finding), so the branch that grows a chain backwards is only
+/// reachable this way. One chain comes back, visiting the path's vertices in order.
+fn judge_open_chain(item: &Vec<usize>, l: &mut Local) {
+    use engeom::common::indices::chained_indices;
+    let k = item.len();
+    let segs: Vec<[u32; 2]> = item.iter().map(|i| [10 + *i as u32, 11 + *i as u32]).collect();
+    l.eval();
+    l.bucket("open chain of section segments in a shuffled order");
+    let want: Vec<u32> = (10..=10 + k as u32).collect();
+    match guarded(|| chained_indices(&segs)) {
+        Ok(ch) => {
+            l.outcome(hash_of(&(ch.len(), k, 19u8)));
+            l.check("consecutive section vertices are joined across one face", "open chain", ch.len() == 1 && ch[0] == want, || json!({"mesh": "open-chain", "pose": 0, "normal": 0, "frac": 0.0, "force": false, "order": item}), || format!("segments {:?}: chains {:?}", segs, ch));
+        }
+        Err(e) => {
+            l.check("section returns", "panic", false, || json!({"mesh": "open-chain", "pose": 0, "normal": 0, "frac": 0.0, "force": false, "order": item}), || e.clone());
+        }
+    }
+}
+
 pub fn run(tier: Tier) -> i32 {
     let mut cx = Ctx::new("C13", tier, "exploration");
-    cx.rule = "meshes: 3 boxes, 3- and 6-gon prisms, capped 6- and 16-gon cylinders, octahedral spheres (1 and 2 subdivisions), 8x6 torus, tetrahedron, an extruded L, two separate boxes in one mesh, a box with a box-shaped cavity (watertight) and open tube, quad, 4 height fields x 3 (thorough 5) poses x 32 plane normals (26 lattice + 6 skew) x offset fractions (-0.1 .. 1.1 and absolute offsets just off a vertex) x curve tolerance {default, 5e-3, 0.05}; each (mesh, plane) pair is classified by a reference computation before the call: pairs whose section polyline would be open (a boundary edge straddles the plane) form the open-section class, probed by 3 representatives; every sweep runs in worker processes limited to 3 GB of address space with a 30 s per-case watchdog, so that an abort or runaway allocation inside the library or parry is reported for the case in progress instead of ending the check. distinct = distinct (mesh, pose, plane) cases".into();
+    cx.rule = "meshes: 3 boxes, 3- and 6-gon prisms, capped 6- and 16-gon cylinders, octahedral spheres (1 and 2 subdivisions), 8x6 torus, tetrahedron, an extruded L, two and three separate boxes in one mesh (one of them 0.01 across), a box with a box-shaped cavity (watertight) and open tube, quad, 4 height fields x 3 (thorough 5) poses x 32 plane normals (26 lattice + 6 skew) x offset fractions (-0.1 .. 1.1 and absolute offsets just off a vertex) x curve tolerance {default, 5e-3, 0.05}; each (mesh, plane) pair is classified by a reference computation before the call: pairs whose section polyline would be open (a boundary edge straddles the plane) form the open-section class, probed by 3 representatives; every sweep runs in worker processes limited to 3 GB of address space with a 30 s per-case watchdog, so that an abort or runaway allocation inside the library or parry is reported for the case in progress instead of ending the check. distinct = distinct (mesh, pose, plane) cases".into();
     cx.bounds = json!({"meshes": CLOSED.len() + OPEN.len(), "poses": tier.pick(3, 5), "normals": normals().len(), "fractions": FRACS, "worker_address_space_kb": WORKER_MEM_KB, "per_case_watchdog_s": ITEM_TIMEOUT_S});
-    cx.require(&["plane nipping a corner or shaving a sliver", "plane crossing the mesh", "plane missing the mesh", "plane through a vertex (degenerate probe)", "open-section class (not executed in-process)", "section with a coarse curve tolerance", "section by the plane with inverted normal", "section curve moved rigidly"]);
+    cx.require(&["plane nipping a corner or shaving a sliver", "plane crossing the mesh", "plane missing the mesh", "plane through a vertex (degenerate probe)", "open-section class (not executed in-process)", "section with a coarse curve tolerance", "section by the plane with inverted normal", "section curve moved rigidly", "open chain of section segments in a shuffled order"]);
     cx.assume("planes within 1e-5 of a mesh vertex are degenerate probes: only 'returns, vertices on the plane and on the surface' is judged there");
     let cs = cases(tier);
     let l = isolated(tier, "main", cs.len(), &|i| serde_json::to_value(&cs[i]).unwrap());
@@ -722,10 +767,22 @@ pub fn run(tier: Tier) -> i32 {
         let l4 = isolated(tier, "forced", forced.len(), &|i| serde_json::to_value(&forced[i]).unwrap());
         cx.absorb(l4);
     }
+    // open chains handed to the chaining step directly: every order of 3..6 segments (7 in the thorough tier)
+    let mut orders: Vec<Vec<usize>> = Vec::new();
+    for k in 3..=tier.pick(6, 7) {
+        orders.extend(crate::props::c15::perms(k));
+    }
+    let lo = sweep(&orders, judge_open_chain);
+    cx.absorb(lo);
     cx.finish()
 }
 
 pub fn replay(case: &Val) -> Local {
+    if let Some(o) = case.get("order") {
+        let mut l = Local::new();
+        judge_open_chain(&o.as_array().map(|a| a.iter().filter_map(|x| x.as_u64()).map(|x| x as usize).collect()).unwrap_or_default(), &mut l);
+        return l;
+    }
     let c: Case = serde_json::from_value(case.clone()).expect("case");
     let mut l = Local::new();
     if c.force {
